@@ -2,7 +2,7 @@
    Statements only; proofs in Proofs/DescriptiveP.v on top of Base/GroupBy.v and Base/CumSum.v.
    All theorems hold for every input list (any length, NULLs, single-valued or all-distinct
    columns, any number of source datasets). *)
-From Coq Require Import List Bool ZArith QArith Sorting.Sorted Sorting.Permutation.
+From Coq Require Import List Bool ZArith QArith Qabs Sorting.Sorted Sorting.Permutation.
 From Splinkv Require Import Base.GroupBy Base.CumSum Model.Descriptive Proofs.DescriptiveP.
 Import ListNotations.
 Local Open Scope Z_scope.
@@ -107,6 +107,18 @@ Theorem C20_bin_width_is_a_listed_width :
   forall mn mx nb, In (choose_bin_width mn mx nb) bin_widths.
 Proof. exact choose_bin_width_in_list. Qed.
 Print Assumptions C20_bin_width_is_a_listed_width.
+
+(* ... and it is a listed width NEAREST to (max - min) / target_bins (Qabsd is the distance).
+   For target_bins = 0 Python's _bins raises ZeroDivisionError; the model's x/0 = 0 then picks
+   0.01 - histogram_data with target_bins = 0 is outside the model (not generated). *)
+Theorem C20_bin_width_is_nearest :
+  forall mn mx nb w, In w bin_widths ->
+    (Qabsd (choose_bin_width mn mx nb) ((mx - mn) / inject_Z nb) <= Qabsd w ((mx - mn) / inject_Z nb))%Q.
+Proof. exact choose_bin_width_nearest. Qed.
+Print Assumptions C20_bin_width_is_nearest.
+Theorem C20_Qabsd_is_distance : forall a b, (Qabsd a b == Qabs (a - b))%Q.
+Proof. exact Qabsd_is_distance. Qed.
+Print Assumptions C20_Qabsd_is_distance.
 
 (* Unlinkables: for each listed (rounded) self-match probability p < 1, cum_prop is exactly the
    share of records whose rounded self-match probability is <= p; every such probability is
